@@ -1,4 +1,5 @@
 import SedpackProofs.Hash
+import SedpackProps.C16Gen
 /-!
 # C16 — Recorded checksums are the standard digests of the exact file bytes
 
@@ -47,5 +48,12 @@ example : (∀ s x y, recAlgo.update (recAlgo.update s x) y = recAlgo.update s (
   refine ⟨?_, ?_, by decide⟩
   · intro s x y; simp [recAlgo]
   · intro s; simp [recAlgo]
+
+/-- **Name → algorithm** (over the tables generated from `types.py` and `_get_hash_function` on every run): every
+supported name is dispatched to the algorithm of that very name, names are pairwise distinct, and every explicit arm of the
+dispatch is a supported name. -/
+theorem C16_every_name_dispatches_to_its_own_algorithm :
+    (∀ n ∈ Gen.hashNames, Gen.algorithmOf n = n) ∧ Gen.hashNames.Nodup ∧ (∀ p ∈ Gen.hashArms, p.1 ∈ Gen.hashNames) := by
+  decide +kernel
 
 end Sedpack.Hash
